@@ -3,6 +3,7 @@ package main
 import (
 	"fmt"
 	"go/ast"
+	"sort"
 	"strings"
 
 	"verif/harness/hc"
@@ -73,6 +74,54 @@ func facts(f *hc.Facts) {
 			return false
 		})
 	}
+	// Effect signature of every handler body: the ordered list of decodes / notifications / state
+	// changes / recursive calls it contains (AST walk in source order).  A case of the switch keeps its
+	// handler name in `dispatch` only if the handler's body has the signature the model implements;
+	// otherwise it becomes "unknown:<handler>" (the model then returns an error, the pinned table breaks).
+	want := map[string]string{
+		"handleSessionCreated":    "decode:mt.NewSessionCreated,gotSession.Signal,storeSalt:s.ServerSalt,OnSession",
+		"handleBadMsg":            "decode:mt.BadMsgNotification,NotifyError:bad.BadMsgID,decode:mt.BadServerSalt,NotifyError:bad.BadMsgID",
+		"handleFutureSalts":       "decode:mt.FutureSalts,salts.Store:res.Salts",
+		"handleContainer":         "decode:proto.MessageContainer,processContainerMessage",
+		"processContainerMessage": "handleMessage",
+		"handleResult":            "decode:proto.Result,gzip,decode:mt.RPCError,NotifyError:res.RequestMessageID,handlePong,NotifyResult:res.RequestMessageID",
+		"handlePong":              "decode:mt.Pong,close,delete:c.ping",
+		"handleAck":               "decode:mt.MsgsAck,NotifyAcks:ack.MsgIDs",
+		"handleGZIP":              "gzip,handleMessage",
+		"gzip":                    "decode:proto.GZIP",
+	}
+	var effRows []string
+	sigOK := map[string]bool{}
+	names := make([]string, 0, len(want))
+	for n := range want {
+		names = append(names, n)
+	}
+	sort.Strings(names)
+	for _, n := range names {
+		name := "Conn." + n
+		if n == "gzip" {
+			name = n
+		}
+		sig := effectSignature(f, f.FuncDecl("mtproto", name))
+		sigOK[n] = sig == want[n]
+		effRows = append(effRows, fmt.Sprintf("(%q, %q)", n, sig))
+	}
+	f.Raw("/-- effect signature of each handler body (decodes, notifications, state changes, recursive calls, in source order) -/")
+	f.Raw("def effects : List (String × String) := [" + strings.Join(effRows, ", ") + "]")
+	depends := map[string][]string{"handleContainer": {"processContainerMessage"}, "handleGZIP": {"gzip"}, "handleResult": {"gzip", "handlePong"}}
+	for i, row := range rows {
+		for n := range want {
+			if strings.HasSuffix(row, fmt.Sprintf(", %q)", n)) {
+				ok := sigOK[n]
+				for _, d := range depends[n] {
+					ok = ok && sigOK[d]
+				}
+				if !ok {
+					rows[i] = strings.Replace(row, fmt.Sprintf("%q)", n), fmt.Sprintf("%q)", "unknown:"+n), 1)
+				}
+			}
+		}
+	}
 	if len(rows) == 0 {
 		f.Missing("dispatch", "type switch of mtproto.Conn.handleMessage not found")
 	} else {
@@ -117,4 +166,65 @@ func facts(f *hc.Facts) {
 	bs := f.FuncSrc("mtproto", "Conn.handleBadMsg")
 	f.Nat("badMsgNotifyCalls", strings.Count(bs, "c.rpc.NotifyError(bad.BadMsgID,"), "NotifyError calls in handleBadMsg that pass bad.BadMsgID")
 	f.Nat("badMsgNotifyCallsAll", strings.Count(bs, "c.rpc.Notify"), "all Notify* calls in handleBadMsg")
+}
+
+// effectSignature lists, in source order, the calls of a handler body that decode a message,
+// notify the rpc engine / the handler, change connection state, or recurse.
+func effectSignature(f *hc.Facts, fd *ast.FuncDecl) string {
+	if fd == nil || fd.Body == nil {
+		return "missing"
+	}
+	vars := map[string]string{} // local variable -> declared type
+	var out []string
+	ast.Inspect(fd.Body, func(n ast.Node) bool {
+		switch n := n.(type) {
+		case *ast.DeclStmt:
+			if gd, ok := n.Decl.(*ast.GenDecl); ok {
+				for _, sp := range gd.Specs {
+					if vs, ok := sp.(*ast.ValueSpec); ok && vs.Type != nil {
+						for _, id := range vs.Names {
+							vars[id.Name] = f.Src(vs.Type)
+						}
+					}
+				}
+			}
+		case *ast.CallExpr:
+			src := f.Src(n.Fun)
+			arg0 := ""
+			if len(n.Args) > 0 {
+				arg0 = f.Src(n.Args[0])
+			}
+			switch {
+			case strings.HasSuffix(src, ".Decode") && len(n.Args) == 1:
+				v := strings.TrimSuffix(src, ".Decode")
+				if t, ok := vars[v]; ok {
+					out = append(out, "decode:"+t)
+				} else {
+					out = append(out, "decode:?"+v)
+				}
+			case src == "c.rpc.NotifyError", src == "c.rpc.NotifyResult", src == "c.rpc.NotifyAcks":
+				out = append(out, strings.TrimPrefix(src, "c.rpc.")+":"+arg0)
+			case src == "c.salts.Store":
+				out = append(out, "salts.Store:"+arg0)
+			case src == "c.storeSalt":
+				out = append(out, "storeSalt:"+arg0)
+			case src == "c.gotSession.Signal":
+				out = append(out, "gotSession.Signal")
+			case src == "c.handler.OnSession":
+				out = append(out, "OnSession")
+			case src == "c.handler.OnMessage":
+				out = append(out, "OnMessage")
+			case src == "c.handleMessage", src == "c.handlePong", src == "c.processContainerMessage", src == "gzip":
+				out = append(out, strings.TrimPrefix(src, "c."))
+			case src == "close":
+				out = append(out, "close")
+			case src == "delete":
+				out = append(out, "delete:"+arg0)
+			case strings.HasPrefix(src, "c.rpc.") || strings.HasPrefix(src, "c.handler."):
+				out = append(out, "other:"+src)
+			}
+		}
+		return true
+	})
+	return strings.Join(out, ",")
 }
